@@ -263,7 +263,7 @@ def dec_alpha(s):
     return t
 
 
-def decode_list(fmt, gsep, out):
+def decode_list(fmt, gsep, out, gsize=0):
     """returns the list of numbers or raises ValueError"""
     toks = fmt_tokens(fmt)
     leader = trailer = ""
@@ -313,6 +313,11 @@ def decode_list(fmt, gsep, out):
             d = run.replace(gsep, "") if gsep else run
             if not d.isdigit():
                 raise ValueError("not decimal: %r" % run)
+            if gsep and gsize > 0:
+                # groups of exactly gsize digits counted from the right (pad zeros in front are not grouped by Xalan)
+                body_ = run.lstrip("0")
+                if body_ and not re.fullmatch(r"\d{1,%d}(%s\d{%d})*" % (gsize, re.escape(gsep), gsize), body_):
+                    raise ValueError("digits are not in groups of %d from the right: %r" % (gsize, run))
             nums.append(int(d))
         pos = j
         if pos == len(body):
@@ -556,7 +561,7 @@ def evaluate(ctx, cases, model, known):
                     what = "no output"
                 elif decodable(f, g):
                     try:
-                        nums = decode_list(f, g, got)
+                        nums = decode_list(f, g, got, gs)
                         if nums != [v]:
                             what = "decodes to %r" % (nums,)
                     except ValueError as e:
@@ -605,7 +610,7 @@ def evaluate(ctx, cases, model, known):
                     what = "node %d (%s): printed %r, section 7.7 gives the empty list" % (i, n["kind"] + ":" + n["name"], s)
             elif decodable(c["fmt"], c["gsep"]):
                 try:
-                    nums = decode_list(c["fmt"], c["gsep"], s) if s != "" else []
+                    nums = decode_list(c["fmt"], c["gsep"], s, c["gsize"]) if s != "" else []
                     if nums != exp:
                         what = "node %d (%s): printed %r = %r, section 7.7 gives %r" % (i, n["kind"] + ":" + n["name"], s, nums, exp)
                 except ValueError as e:
